@@ -194,7 +194,46 @@ def scan_time_readers(repo: Path) -> dict[str, list[str]]:
             hits |= {f"param:{p}" for p in params & TIME_PARAMS}
             if hits:
                 found[f"{rel}:{qn}"] = sorted(hits)
+        _attribute_helpers(rel, tree, found, base)
     return found
+
+
+def _attribute_helpers(rel: str, tree: ast.Module, found: dict, base: Path) -> None:
+    """A module-level helper that reads the clock, is not classified itself, is not imported by another models module and
+    is called only from functions of its own module: its reads belong to its callers (a block extracted from a model
+    function is still that model's code; the increment expression follows the call).  Repeated until nothing moves, so
+    that helpers of helpers are attributed too.  A helper nobody calls, or one used elsewhere, stays a reader of its
+    own and must be classified (fail closed)."""
+    funcs = dict(_functions(tree))
+    moved = True
+    while moved:
+        moved = False
+        for key in [k for k in found if k.startswith(rel + ":") and k not in CLASSIFICATION]:
+            qn = key.split(":", 1)[1]
+            if "." in qn or qn not in funcs:
+                continue
+            callers = [c for c, fn in funcs.items() if c != qn and "." not in c and any(
+                isinstance(n, ast.Call) and isinstance(n.func, ast.Name) and n.func.id == qn for n in ast.walk(fn))]
+            other_refs = sum(1 for n in ast.walk(tree) if isinstance(n, ast.Name) and n.id == qn) - sum(
+                1 for c in callers for n in ast.walk(funcs[c]) if isinstance(n, ast.Name) and n.id == qn)
+            self_refs = sum(1 for n in ast.walk(funcs[qn]) if isinstance(n, ast.Name) and n.id == qn)
+            if not callers or other_refs - self_refs > 0:
+                continue                      # referenced at module level / from a method / as a value: not followed
+            used_elsewhere = False
+            for f in base.rglob("*.py"):
+                if f.relative_to(base.parent.parent).as_posix() != rel:
+                    txt = f.read_text()
+                    if qn in txt and any(isinstance(n, (ast.ImportFrom, ast.Import)) and any(a.name.split(".")[-1] == qn for a in n.names)
+                                         for n in ast.walk(ast.parse(txt))):
+                        used_elsewhere = True
+                        break
+            if used_elsewhere:
+                continue
+            hits = [h for h in found.pop(key) if not h.startswith("param:")]
+            for c in callers:
+                ck = f"{rel}:{c}"
+                found[ck] = sorted(set(found.get(ck, [])) | set(hits))
+            moved = True
 
 
 # ------------------------------------------------------------------------------------------ 2. symbolic values
@@ -313,6 +352,7 @@ class Sym:
                 if isinstance(n, ast.FunctionDef):
                     self.index.setdefault(n.name, []).append((rel, n))
         self.call_names: dict[str, str] = {}
+        self._consts: dict[str, dict] = {}
         self.forced: dict[int, tuple] = {}
         self.mode = None      # None: rate models (linear atom = detector.time_step); else dict(src=bucket, sink=bucket)
 
@@ -343,11 +383,34 @@ class Sym:
             self.call_names[key] = f"call:{fname}" + (f"#{n + 1}" if n else "")
         return var(self.call_names[key])
 
-    def subst(self, node: ast.AST, psub):
+    def module_consts(self, rel) -> dict:
+        """NAME = <literal> assigned exactly once at module level (and nowhere else in the module): a constant moved out
+        of a function is read as the literal it names."""
+        if rel not in self._consts:
+            tree, out, count = self.trees[rel], {}, {}
+            for n in ast.walk(tree):
+                if isinstance(n, ast.Name) and isinstance(n.ctx, (ast.Store, ast.Del)):
+                    count[n.id] = count.get(n.id, 0) + 1
+                elif isinstance(n, (ast.arg,)):
+                    count[n.arg] = count.get(n.arg, 0) + 1
+            for st in tree.body:
+                tg = st.targets[0] if isinstance(st, ast.Assign) and len(st.targets) == 1 else (st.target if isinstance(st, ast.AnnAssign) else None)
+                if isinstance(tg, ast.Name) and getattr(st, "value", None) is not None and count.get(tg.id) == 1:
+                    try:
+                        v = ast.literal_eval(st.value)
+                    except (ValueError, SyntaxError, TypeError):
+                        continue
+                    if isinstance(v, (int, float, str, bool, tuple, frozenset)) or v is None:
+                        out[tg.id] = st.value
+            self._consts[rel] = out
+        return self._consts[rel]
+
+    def subst(self, node: ast.AST, psub, rel=None, local_names=()):
         """node rewritten over the top-level function's parameters, or None if it mentions anything else."""
         import copy
 
         ok = True
+        consts = self.module_consts(rel) if rel is not None else {}
 
         class T(ast.NodeTransformer):
             def visit_Name(s, n):  # noqa: N802, N805
@@ -356,6 +419,8 @@ class Sym:
                     return copy.deepcopy(psub[n.id])
                 if n.id in SAFE_GLOBALS:
                     return n
+                if n.id in consts and n.id not in local_names and n.id not in psub:
+                    return copy.deepcopy(consts[n.id])
                 ok = False
                 return n
 
@@ -544,7 +609,7 @@ class Sym:
         callee = Frame(rel2, fn, fr.depth + 1)
         for nm in names + kwonly:
             if nm in arg_nodes:
-                psub[nm] = self.subst(arg_nodes[nm], p.psub)
+                psub[nm] = self.subst(arg_nodes[nm], p.psub, fr.rel, p.env)
             else:
                 d = pos_defaults.get(nm, kw_defaults.get(nm))
                 if d is None:
@@ -711,7 +776,7 @@ class Sym:
         self.fail(rel, st, "statement shape not accepted")
 
     def if_stmt(self, fr: Frame, p: Path_, st: ast.If):
-        cond = self.subst(st.test, p.psub)
+        cond = self.subst(st.test, p.psub, fr.rel, p.env)
         body, orelse = st.body, st.orelse
         while isinstance(cond, ast.UnaryOp) and isinstance(cond.op, ast.Not):
             cond, body, orelse = cond.operand, orelse, body      # `if not c: A else: B` == `if c: B else: A`
